@@ -444,8 +444,8 @@ def State.doColor (s : State) : State :=
     | some l =>
       match l.kind, s.matrix with
       | .matrix h w, some m =>
-        -- the cells of the matrix the block was opened on — which is this light's unless a
-        -- command inside the block changed the NAME register to another matrix light
+        -- the cells of the matrix register — this light's own matrix unless a routine called
+        -- inside the block opened a block of its own on another matrix light
         let cells := (List.range m.height).flatMap fun r => (List.range m.width).map fun c => m.cell r c
         let conv (c : Option (List Val)) : Option (List Int) :=
           match c with
@@ -454,9 +454,9 @@ def State.doColor (s : State) : State :=
         match cells.mapM conv, (s.asRawTime (s.regs .duration)).bind wire32 with
         | some cs, some d => s.emit (.setTile l.name cs d w h)
         | _, _ => s.fault "matrix conversion"
-      -- a matrix light, but the block was opened on a target without a matrix (the NAME register
-      -- was changed by a command inside the block): `_as_raw_matrix(None)` raises
-      | .matrix _ _, none => s.fault "'NoneType' object has no attribute 'height'"
+      -- a matrix light, but no matrix (a routine called inside the block opened a block of its
+      -- own on a light without one): nothing is sent
+      | .matrix _ _, none => s
       | _, _ => s.emit (.warn "not a matrix light")
   | .operand .mzLight =>
     match s.light? (s.regs .name) with
